@@ -126,7 +126,7 @@ def monC10 : ObsMonitor CObs C10St where
     | _ => some m
 
 /-- base clauses that remain meaningful in the presence of consumer references -/
-abbrev monC08c := liftMon (monOnce.prod monHidden)
-abbrev monC09c := liftMon (monOneResolver.prod monNoPanic)
+abbrev monC08c := liftMon (monOnce.rcBoth monHidden)
+abbrev monC09c := liftMon (monOneResolver.rcBoth monNoPanic)
 
 end UtilModel.RefCount.Cons
